@@ -9,6 +9,10 @@ enum { ASL_VP_ATOMIC = 1, ASL_VP_THREAD_END = 2, ASL_VP_FLAG = 3 };
 enum { ASL_VP_ATOMIC_READ = 21 }; // a read of an AtomicCount is a step of its own: "decrement, then read the count again" can be split
 #define ASL_VERIF_HAVE_COUNT_READ_POINT
 
+// the function-thread trampolines have a schedule point between copying the creator's context and setting its ready flag
+#define ASL_VERIF_HAVE_READY_POINT 1
+enum { ASL_VP_READY = 20 };
+
 #ifdef ASL_VERIF_NOSCHED
 static inline void asl_verif_point(int, const void*) {}
 static inline void asl_verif_spin(const volatile void*) {}
